@@ -19,6 +19,11 @@ from .. import meshops as mo
 from ..topo import Topo, REF
 
 ID = 'C03'
+# sub-checks added after the seeded-change waves (DESIGN.md sections 5 and 6)
+EXTENSIONS = [
+    'library-made mesh variants; both one-sided bases must look from the two different neighbours',
+    'one-sided traces evaluated by hand through gbasis (validated against InteriorFacetBasis): periodic Mesh*DG meshes and ElementTriN3 are judged; connectivity handed over as uint32 / uint64 / int16',
+]
 LEVEL = 'exploration'
 TECHNIQUE = "small-scope exhaustive enumeration of numberings / local orders on patches x all unit coefficient vectors x unisolvent facet lattices"
 LEVEL_TEXT = ("For each patch (2-8 cells: pairs, fans around an interior vertex, L-shape, ring, 2-3 tetrahedra around a face/edge, "
